@@ -191,6 +191,185 @@ func Scenarios() []History {
 	)
 	add("cadence", smallParams(), nil, ops...)
 
+
+	// ---- boundary scenarios named by the properties' quantifiers
+
+	// fractional discounted prices (x.5 and x.75), both promotion kinds, several windows: block times
+	// before, at the start of, inside, at the end of, between and after the windows
+	ops = []Ev{
+		{Name: "Define", Signer: "o1", Svc: "s1"},
+		{Name: "Bind", Signer: "o1", Svc: "s1", Prov: "p1", Deposit: 60, DShape: "ok", Qos: 1,
+			Pr: MPricing{Price: 3, PT: []PromoT{}, PV: []PromoV{{V: 1, D: 50}, {V: 3, D: 90}}}},
+		{Name: "Bind", Signer: "o1", Svc: "s1", Prov: "p2", Deposit: 60, DShape: "ok", Qos: 1,
+			Pr: MPricing{Price: 5, PT: []PromoT{{S: 1002, E: 1004, D: 75}, {S: 1006, E: 1009, D: 50}}, PV: []PromoV{}}},
+		{Name: "Bind", Signer: "o2", Svc: "s1", Prov: "p3", Deposit: 60, DShape: "ok", Qos: 1,
+			Pr: MPricing{Price: 7, PT: []PromoT{{S: 1000, E: 1020, D: 50}}, PV: []PromoV{{V: 2, D: 50}}}},
+		{Name: "Call", Signer: "c1", Svc: "s1", Provs: []string{"p1", "p2", "p3"}, Cap: 10, Timeout: 1, Rep: true, Freq: 1, Total: 12},
+	}
+	for h := int64(1); h <= 12; h++ {
+		ops = append(ops, eb(1),
+			Ev{Name: "Respond", Signer: "p1", Rid: rid(1, h, h, 0), Kind: "valid"},
+			Ev{Name: "Respond", Signer: "p3", Rid: rid(1, h, h, 2), Kind: "valid"})
+		if h%3 == 0 {
+			ops = append(ops, Ev{Name: "Respond", Signer: "p2", Rid: rid(1, h, h, 1), Kind: "none"})
+		}
+	}
+	ops = append(ops, Ev{Name: "Withdraw", Signer: "o1", Prov: "p1"}, Ev{Name: "Withdraw", Signer: "o1"}, Ev{Name: "Withdraw", Signer: "o2", Prov: "p3"}, Ev{Name: "Withdraw", Signer: "o2"})
+	add("pricing-fractions", smallParams(), map[string]int64{"c1": 400}, ops...)
+
+	// fee cap equal to the truncated price; tax that truncates to a non-zero amount; withdrawals in every order
+	ops = []Ev{
+		{Name: "Define", Signer: "o1", Svc: "s1"},
+		{Name: "Bind", Signer: "o1", Svc: "s1", Prov: "p1", Deposit: 100, DShape: "ok", Qos: 1,
+			Pr: MPricing{Price: 5, PT: []PromoT{{S: 1000, E: 1100, D: 75}}, PV: []PromoV{}}},
+		{Name: "Bind", Signer: "o1", Svc: "s1", Prov: "p2", Deposit: 100, DShape: "ok", Qos: 1, Pr: pr(25)},
+		{Name: "Bind", Signer: "o2", Svc: "s1", Prov: "p3", Deposit: 100, DShape: "ok", Qos: 1, Pr: pr(12)},
+		{Name: "Call", Signer: "c1", Svc: "s1", Provs: []string{"p1"}, Cap: 3, Timeout: 2},
+		{Name: "Call", Signer: "c2", Svc: "s1", Provs: []string{"p2", "p3"}, Cap: 30, Timeout: 2},
+		eb(1),
+		{Name: "Respond", Signer: "p1", Rid: rid(1, 1, 1, 0), Kind: "valid"},
+		{Name: "Respond", Signer: "p2", Rid: rid(2, 1, 1, 0), Kind: "valid"},
+		{Name: "Respond", Signer: "p3", Rid: rid(2, 1, 1, 1), Kind: "valid"},
+		{Name: "Withdraw", Signer: "o1", Prov: "p2"},
+		{Name: "Withdraw", Signer: "o1", Prov: "p1"},
+		{Name: "Withdraw", Signer: "o1"},
+		{Name: "Withdraw", Signer: "o2", Prov: "p1"},
+		{Name: "Call", Signer: "c1", Svc: "s1", Provs: []string{"p2"}, Cap: 30, Timeout: 2},
+		eb(1),
+		{Name: "Respond", Signer: "p2", Rid: rid(3, 1, 2, 0), Kind: "valid"},
+		{Name: "Withdraw", Signer: "o1", Prov: "p2"},
+		{Name: "Withdraw", Signer: "o1"},
+		{Name: "Withdraw", Signer: "o2"},
+		eb(1), eb(1),
+	}
+	add("cap-tax-withdraw", smallParams(), nil, ops...)
+
+	// a batch answered in full before its expiry: pause / start / update in that window, and after it
+	ops = registry(map[string]int64{"p1": 5, "p2": 3})
+	ops = append(ops,
+		Ev{Name: "Call", Signer: "c1", Svc: "s1", Provs: []string{"p1", "p2"}, Cap: 10, Timeout: 4, Rep: true, Freq: 6, Total: -1},
+		eb(1),
+		Ev{Name: "Respond", Signer: "p1", Rid: rid(1, 1, 1, 0), Kind: "valid"},
+		Ev{Name: "Respond", Signer: "p2", Rid: rid(1, 1, 1, 1), Kind: "valid"},
+		Ev{Name: "Pause", Signer: "c1", ID: 1},
+		eb(1),
+		Ev{Name: "Start", Signer: "c1", ID: 1},
+		eb(1), eb(1), eb(1), eb(1), eb(1),
+		// batch 2 unanswered: pause and start while it is pending
+		Ev{Name: "Pause", Signer: "c1", ID: 1},
+		Ev{Name: "Start", Signer: "c1", ID: 1},
+		eb(1), eb(1), eb(1), eb(1),
+		Ev{Name: "Respond", Signer: "p1", Rid: rid(1, 2, 7, 0), Kind: "valid"},
+		eb(1), eb(1), eb(1),
+	)
+	add("pause-start-windows", smallParams(), nil, ops...)
+
+	// timeout changed while a batch is in flight: answers, expiry, the next batch; timeout above frequency
+	ops = registry(map[string]int64{"p1": 5, "p2": 3})
+	ops = append(ops,
+		Ev{Name: "Call", Signer: "c1", Svc: "s1", Provs: []string{"p1", "p2"}, Cap: 10, Timeout: 5, Rep: true, Freq: 5, Total: 4},
+		eb(1),
+		Ev{Name: "UpdateContext", Signer: "c1", ID: 1, Timeout: 2},
+		Ev{Name: "Obs"},
+		Ev{Name: "Respond", Signer: "p1", Rid: rid(1, 1, 1, 0), Kind: "valid"},
+		eb(1), eb(1), eb(1), eb(1), eb(1),
+		Ev{Name: "UpdateContext", Signer: "c1", ID: 1, Timeout: 6},          // above the frequency: rejected
+		Ev{Name: "UpdateContext", Signer: "c1", ID: 1, Timeout: 6, Freq: 6}, // together: accepted
+		Ev{Name: "Respond", Signer: "p2", Rid: rid(1, 2, 6, 1), Kind: "bad"},
+		eb(1), eb(1), eb(1), eb(1), eb(1), eb(1), eb(1), eb(1),
+	)
+	add("timeout-update-in-flight", smallParams(), nil, ops...)
+
+	// bindings that change while requests are pending: disabled by the owner, re-priced while disabled, topped up
+	ops = registry(map[string]int64{"p1": 5, "p2": 3})
+	ops = append(ops,
+		Ev{Name: "Call", Signer: "c1", Svc: "s1", Provs: []string{"p1", "p2"}, Cap: 10, Timeout: 2},
+		eb(1),
+		Ev{Name: "Disable", Signer: "o1", Svc: "s1", Prov: "p1"},
+		Ev{Name: "UpdateBinding", Signer: "o1", Svc: "s1", Prov: "p1", HasPr: true, Pr: pr(2)},
+		Ev{Name: "UpdateBinding", Signer: "o1", Svc: "s1", Prov: "p1", Deposit: 7, DShape: "ok"},
+		Ev{Name: "Respond", Signer: "p2", Rid: rid(1, 1, 1, 1), Kind: "bad"},
+		eb(1), eb(1), // p1's request times out while its binding is disabled
+		Ev{Name: "Enable", Signer: "o1", Svc: "s1", Prov: "p1", Deposit: 3, DShape: "ok"},
+		Ev{Name: "Call", Signer: "c1", Svc: "s1", Provs: []string{"p1"}, Cap: 10, Timeout: 1},
+		eb(1),
+		Ev{Name: "Respond", Signer: "p1", Rid: rid(2, 1, 4, 0), Kind: "valid"},
+		eb(1), eb(7),
+		Ev{Name: "Disable", Signer: "o1", Svc: "s1", Prov: "p2"},
+		eb(6),
+		Ev{Name: "RefundDeposit", Signer: "o1", Svc: "s1", Prov: "p2"},
+	)
+	add("binding-changes-in-flight", smallParams(), map[string]int64{"p1": 9}, ops...)
+
+	// super mode: timeout without slash, malformed answer with slash; one-shot context updated with repeat terms
+	ops = registry(map[string]int64{"p1": 5, "p2": 3})
+	ops = append(ops,
+		Ev{Name: "Call", Signer: "c1", Svc: "s1", Provs: []string{"p1", "p2"}, Cap: 10, Timeout: 2, Super: true},
+		Ev{Name: "Call", Signer: "c2", Svc: "s1", Provs: []string{"p1"}, Cap: 10, Timeout: 3},
+		eb(1),
+		Ev{Name: "Respond", Signer: "p2", Rid: rid(1, 1, 1, 1), Kind: "bad"},
+		Ev{Name: "UpdateContext", Signer: "c2", ID: 2, Freq: 4, Total: 3},
+		Ev{Name: "UpdateContext", Signer: "c2", ID: 2, Total: -1},
+		eb(1), eb(1),
+		Ev{Name: "Obs"},
+		eb(1), eb(1), eb(1), eb(1), eb(1), eb(1),
+	)
+	add("super-and-oneshot", smallParams(), nil, ops...)
+
+	// two services whose names are prefixes of one another; a provider claimed by a second owner;
+	// withdrawal address set before a further bind
+	ops = []Ev{
+		{Name: "Define", Signer: "o1", Svc: "s"},
+		{Name: "Define", Signer: "o1", Svc: "s1"},
+		{Name: "Define", Signer: "o2", Svc: "s-1"},
+		{Name: "Define", Signer: "o2", Svc: "s"},
+		{Name: "Bind", Signer: "o1", Svc: "s1", Prov: "p1", Deposit: 40, DShape: "ok", Pr: pr(5), Qos: 1},
+		{Name: "SetWithdrawAddr", Signer: "o1", Addr: "w1"},
+		{Name: "Bind", Signer: "o2", Svc: "s", Prov: "p1", Deposit: 40, DShape: "ok", Pr: pr(5), Qos: 1}, // p1 belongs to o1
+		{Name: "Bind", Signer: "o1", Svc: "s", Prov: "p2", Deposit: 40, DShape: "ok", Pr: pr(4), Qos: 1},
+		{Name: "Bind", Signer: "o2", Svc: "s-1", Prov: "p3", Deposit: 40, DShape: "ok", Pr: pr(3), Qos: 1},
+		{Name: "Bind", Signer: "o1", Svc: "s-1", Prov: "p1", Deposit: 40, DShape: "ok", Pr: pr(2), Qos: 1},
+		{Name: "Obs"},
+		{Name: "Call", Signer: "c1", Svc: "s", Provs: []string{"p2", "p1"}, Cap: 10, Timeout: 2},
+		{Name: "Call", Signer: "c1", Svc: "s-1", Provs: []string{"p1", "p3"}, Cap: 10, Timeout: 2},
+		eb(1),
+		{Name: "Obs"},
+		{Name: "Respond", Signer: "p2", Rid: rid(1, 1, 1, 0), Kind: "valid"},
+		{Name: "Respond", Signer: "p1", Rid: rid(2, 1, 1, 0), Kind: "valid"},
+		{Name: "Withdraw", Signer: "o2", Prov: "p1"},
+		{Name: "Withdraw", Signer: "o1"},
+		eb(1), eb(1),
+	}
+	add("prefix-names-owners", smallParams(), nil, ops...)
+
+	// module context: threshold changed while a batch is in flight; a skipped batch expires
+	ops = registry(map[string]int64{"p1": 5, "p2": 3})
+	ops = append(ops,
+		Ev{Name: "ModCreate", Signer: "c1", Svc: "s1", Provs: []string{"p1", "p2"}, Cap: 10, Timeout: 2, Rep: true, Freq: 3, Total: 5, Thr: 1},
+		eb(1),
+		Ev{Name: "ModUpdate", Signer: "c1", ID: 1, Thr: 2},
+		Ev{Name: "Respond", Signer: "p1", Rid: rid(1, 1, 1, 0), Kind: "valid"},
+		eb(1), eb(1), // expires with one output: no error (the batch was issued under threshold 1)
+		Ev{Name: "ModUpdate", Signer: "c1", ID: 1, Cap: 1, CapShape: "ok"},
+		eb(1), eb(1), eb(1), // batch 2 skipped (cap below every price), expires: callback with an error
+		Ev{Name: "ModUpdate", Signer: "c1", ID: 1, Cap: 10, CapShape: "ok", Thr: 1},
+		eb(1),
+		Ev{Name: "Respond", Signer: "p1", Rid: rid(1, 3, 7, 0), Kind: "valid"},
+		Ev{Name: "Respond", Signer: "p2", Rid: rid(1, 3, 7, 1), Kind: "valid"},
+		eb(1), eb(1), eb(1),
+	)
+	add("module-threshold", smallParams(), nil, ops...)
+
+	// two contexts of one consumer due in the same block, funds for one of them only
+	ops = registry(map[string]int64{"p1": 5})
+	ops = append(ops,
+		Ev{Name: "Call", Signer: "c1", Svc: "s1", Provs: []string{"p1"}, Cap: 10, Timeout: 2},
+		Ev{Name: "Call", Signer: "c1", Svc: "s1", Provs: []string{"p1"}, Cap: 10, Timeout: 2},
+		Ev{Name: "Call", Signer: "c1", Svc: "s1", Provs: []string{"p1"}, Cap: 10, Timeout: 2},
+		eb(1), eb(1), eb(1), eb(1),
+	)
+	add("same-block-one-budget", smallParams(), map[string]int64{"c1": 7}, ops...)
+
 	// zero-height export with pending requests, earnings, a withdrawal address, a killed and a paused context
 	ops = registry(map[string]int64{"p1": 5, "p2": 3, "p3": 4})
 	ops = append(ops,
